@@ -65,6 +65,50 @@ Proof.
 Qed.
 Print Assumptions c15_zero_init_covers_every_element_once.
 
+(* ---- MSL: guard of a runtime-sized storage array (ReadZeroSkipWrite / Restrict), all sizes, offsets, strides ---- *)
+Theorem c15_msl_runtime_array_guard_exact :
+  forall bytes offset esize stride,
+    0 < stride -> 0 < esize -> 0 <= offset -> offset + esize <= bytes ->
+    (forall i, 0 <= i -> (i < msl_rt_count bytes offset esize stride <-> elem_in_buffer bytes offset esize stride i)) /\
+    (bytes < M32 -> msl_rt_count_u32 bytes offset esize stride = msl_rt_count bytes offset esize stride) /\
+    (esize <= stride -> (bytes - offset) mod stride = 0 -> msl_rt_count bytes offset esize stride = runtime_len bytes offset stride) /\
+    (forall i, in32 i -> elem_in_buffer bytes offset esize stride (restrict_index i (msl_rt_count bytes offset esize stride))).
+Proof.
+  intros b o e s Hs He Ho Hb. split; [intros i Hi; apply msl_rt_guard_exact; assumption|].
+  split; [intros Hlt; apply msl_rt_count_u32_exact; assumption|].
+  split; [intros Hes Hm; apply msl_rt_count_whole_strides; try assumption; split; assumption|].
+  intros i Hi. apply msl_rt_restrict_in_buffer; assumption.
+Qed.
+Print Assumptions c15_msl_runtime_array_guard_exact.
+
+(* the same guard with the element size as the divisor admits an element outside the buffer (vec3 elements) *)
+Theorem c15_msl_runtime_array_guard_esize_denominator_refuted :
+  exists bytes offset esize stride i,
+    0 < stride /\ 0 < esize <= stride /\ 0 <= offset /\ offset + esize <= bytes /\ (bytes - offset) mod stride = 0 /\ 0 <= i /\
+    i < msl_rt_count_esize_denominator bytes offset esize stride /\ ~ elem_in_buffer bytes offset esize stride i.
+Proof. exact msl_rt_guard_esize_denominator_refuted. Qed.
+Print Assumptions c15_msl_runtime_array_guard_esize_denominator_refuted.
+
+(* hypothesis of the guard lemma that cannot be dropped: the binding holds at least one element *)
+Theorem c15_msl_runtime_array_guard_needs_min_binding_size :
+  exists bytes offset esize stride i,
+    0 < stride /\ 0 < esize <= stride /\ 0 <= offset /\ 0 <= bytes < offset + esize /\ in32 i /\
+    i < msl_rt_count_u32 bytes offset esize stride /\ ~ elem_in_buffer bytes offset esize stride i.
+Proof. exact msl_rt_guard_needs_min_binding_size. Qed.
+Print Assumptions c15_msl_runtime_array_guard_needs_min_binding_size.
+
+(* ---- which variables get the zero-initialisation: the walk over every sub-statement (continuing blocks included)
+        and every callee finds every variable the entry point can use; the walk that skips continuing blocks does not ---- *)
+Theorem c15_used_globals_walk_complete :
+  forall funcs n s g, uses funcs n s g -> In g (collect funcs n s).
+Proof. exact collect_complete. Qed.
+Print Assumptions c15_used_globals_walk_complete.
+
+Theorem c15_used_globals_walk_without_continuing_refuted :
+  exists funcs n s g, uses funcs n s g /\ ~ In g (collect_no_continuing funcs n s).
+Proof. exact collect_no_continuing_refuted. Qed.
+Print Assumptions c15_used_globals_walk_without_continuing_refuted.
+
 (* ---- SPIR-V hardened operators: total and exact on every operand ---- *)
 Theorem c15_spv_wrapped_div_mod_total :
   (forall a b, in32 a -> in32 b -> teval [VI32 a; VI32 b] t_div_i32 = Done (VI32 (div_i32 a b)))
@@ -96,4 +140,12 @@ Print Assumptions c15_spv_float_to_int_unclamped_refuted.
 Example c15_example :
   restrict_index 4294967295 4 = 3 /\ rzsw_read 0 [10; 20; 30; 40] 4294967295 = 0 /\
   rzsw_write [10; 20; 30; 40] 7 99 = [10; 20; 30; 40] /\ runtime_len 100 4 16 = 6.
+Proof. vm_compute. repeat split; reflexivity. Qed.
+
+(* non-vacuity of the MSL guard lemma: struct { n: u32, items: array<vec3<f32>> } bound to 64 bytes = 3 elements;
+   and of the walk: advance() called from a continuing block uses global 7 *)
+Example c15_example_msl_guard :
+  msl_rt_count 64 16 12 16 = 3 /\ msl_rt_count_u32 64 16 12 16 = 3 /\ msl_rt_count_esize_denominator 64 16 12 16 = 4 /\
+  restrict_index 4294967295 (msl_rt_count 64 16 12 16) = 2 /\
+  collect (fun _ => CRef 7%nat) 1 (CLoop CSkip (CCall 0%nat)) = [7%nat].
 Proof. vm_compute. repeat split; reflexivity. Qed.
